@@ -288,6 +288,9 @@ class Polynomial(Expression):
     def __getinitargs__(self):
         return (self.Base, self.Data, self.Unit, self.VarLess)
 
+    # attribute names matching __getinitargs__ (used for unpickling)
+    init_arg_names = ("Base", "Data", "Unit", "VarLess")
+
     mapper_method = intern("map_polynomial")
 
     def as_primitives(self):
